@@ -10,6 +10,30 @@ NOTE = ("Trusted base: Python semantics as modelled by sa/cfg.py (statement CFG 
         "structural necessary conditions, not the behaviour; see DESIGN.md section 3 for 'decides / does not decide'.")
 
 CHECKS = {
+    "C06": dict(
+        text="Static: RESULT-USED over every conditional compare-and-swap in the push-serving functions (found by role), "
+             "must-pass-through from each CAS's failure and exception outcome to the per-ref status emission, dominance of a "
+             "store-membership test over every wire-commanded ref write, and presence of ref-state reads in the atomic "
+             "validation. Covers all paths of the status logic at once; a happy-path test cannot see a dropped CAS result. "
+             "Does not decide racing pushers beyond R06.4b (known finding) nor status round trip through the client parser.",
+        technique="result-used dataflow + must-pass-through/dominance on statement CFG",
+        ref="3 C06"),
+    "C08": dict(
+        text="Static: DEF-INSIDE (every ref value feeding a test inside a ref's lock region is read inside the region, via "
+             "reaching definitions), lock ownership of every loose-ref removal, SAME-DEF between the CAS's expected value "
+             "and the new commit's ancestry (read-site labels through reaching definitions), package-wide RESULT-USED of "
+             "conditional CAS calls. These are the stale-read / double-read / dropped-result shapes whose losing "
+             "interleaving a test would have to hit. Linearizability over schedules is not decided.",
+        technique="reaching definitions (def-inside-region, same-def labels), result-used, lock-region dominance",
+        ref="3 C08"),
+    "C09": dict(
+        text="Static: order of effects on every CFG path (MUST-PRECEDE / NEVER-BEFORE): objects before refs, "
+             "flush/fsync/close before rename before index before visibility in _complete_pack, new pack before deletions "
+             "in repack/pack_loose_objects, packed-refs committed before loose refs go, packed entry before loose file on "
+             "delete, grace test before prune. A crash point is a position between two effects; the final state a test "
+             "asserts on is identical for both orders. Does not enumerate crash points at run time.",
+        technique="must-precede / never-before ordering of effect events on statement CFG",
+        ref="3 C09"),
     "C07": dict(
         text="Static: typestate over the CFG of _GitFile (O_EXCL acquisition, flush/fsync/close before rename, no unlink "
              "after a successful rename, release on every failing path) and RELEASE-ON-EXIT over every write-mode "
